@@ -10,8 +10,11 @@ Reading guide. `Node` is the event index of a juno node next to its canonical ch
 Node.init ops` is the node after a history of store / revert / snapshot write / restart / query /
 prune and of the faults: a Store or RevertHead whose commit fails, a restart whose lazy
 initialisation hits a transient error, a restart that dies inside the initialiser. `cfg.W` is the
-window size (8192 in the code), `cfg.cap` the LRU capacity (16); `Repaired cfg` = the three round-1
-repairs are in (they are: the harness probes the real code every run). `naive f chain lo hi` is the
+window size (8192 in the code), `cfg.cap` the LRU capacity (16); `Repaired cfg` = the repairs
+6609698, 84d7a3b, 702b167 and c8ac4a7 are in (they are: the harness probes the real code every run).
+`apiEvents` / `apiStore` / `apiRevert` / `apiSnap` are the node's operations: they first bring the
+running filter up if it is not initialised (`wake` = `ensureInit`), then act (`query`, `store`, …:
+the operation on a node whose initialisation state is settled). `naive f chain lo hi` is the
 specification of a query: scan every block. `collect … fuel n none` follows continuation tokens from
 the first page to the empty token.
 
@@ -66,54 +69,45 @@ theorem naive_in_chain_order (f : Filter) (chain : List Block) (lo hi : Nat) :
 /-- **index_no_false_neg.** After EVERY history of store / revert (any depth, across window
 boundaries, after queries warmed the cache) / snapshot write / graceful and ungraceful restart /
 query / prune / failed Store commit / failed RevertHead commit / failed lazy initialisation / crash
-after any number of steps inside the initialiser: whenever the running filter is initialised
-(always, except between a failed initialisation and the next write or restart) the index has no
-false negatives; the database part of the invariant holds without exception. For every window size. -/
+after any number of steps inside the initialiser: the database part of the invariant holds, and at
+the next access (`wake`: the filter is initialised on demand, a failed attempt is repeated) the
+index has no false negatives. For every window size. -/
 theorem index_no_false_neg (cfg : Cfg) (hW : 1 ≤ cfg.W) (hr : Repaired cfg) (ops : List Op)
     (hok : StoresOK cfg Node.init ops) :
     let n := run cfg Node.init ops
-    DBInv cfg n ∧ (n.initErr = none → n.chain ≠ [] → NoFalseNeg cfg n) := by
+    DBInv cfg n ∧ (n.chain ≠ [] → NoFalseNeg cfg (wake cfg n)) := by
   intro n
   have hw := weak_after_history cfg hW ops (histOK_of_repaired cfg hr ops _ hok)
-  exact ⟨hw.1, fun h1 h2 => noFalseNeg_of_inv cfg hW n (hw.2 h1) h2⟩
+  refine ⟨hw.1, fun h2 => noFalseNeg_of_inv cfg hW _ (wake_inv cfg hW hr.2.2.2 n hw) ?_⟩
+  rw [(wake_fields cfg n).1]; exact h2
 
-/-- The only way the running filter is ever uninitialised is the injected fault: without
-`restartFault` in the history it is initialised and every Store / RevertHead / snapshot write /
-restart succeeds. -/
+/-- No operation fails along such histories — also right after a failed initialisation: every
+Store / RevertHead / snapshot write / restart succeeds (the only failing steps are the injected ones). -/
 theorem ops_do_not_fail (cfg : Cfg) (hW : 1 ≤ cfg.W) (hr : Repaired cfg) (ops : List Op)
     (hok : StoresOK cfg Node.init ops) :
     let n := run cfg Node.init ops
-    n.initErr = none →
-    (∀ blk, (∀ it ∈ blk.items, it ∈ blk.bloom) → n.chain.length + 1 < 2 ^ 64 → (store cfg n blk).2 = none) ∧
-    (n.chain ≠ [] → RevertAboveFloor n → (revert cfg n).2 = none) ∧
-    (restart cfg n).2 = none ∧ (snap n).2 = none := by
-  intro n hlive
+    (∀ blk, (∀ it ∈ blk.items, it ∈ blk.bloom) → n.chain.length + 1 < 2 ^ 64 → (apiStore cfg n blk).2 = none) ∧
+    (n.chain ≠ [] → RevertAboveFloor n → (apiRevert cfg n).2 = none) ∧
+    (restart cfg n).2 = none ∧ (apiSnap cfg n).2 = none := by
+  intro n
   have hw := weak_after_history cfg hW ops (histOK_of_repaired cfg hr ops _ hok)
-  have := step_no_error cfg hW n (hw.2 hlive)
-  exact ⟨fun blk h1 h2 => this.1 blk ⟨h1, h2⟩,
-    fun hne hfl => this.2.1 hne ⟨⟨Or.inl hr.1, Or.inl hr.2.1, Or.inl hr.2.2⟩, hfl⟩, this.2.2.1, this.2.2.2⟩
+  have hi := wake_inv cfg hW hr.2.2.2 n hw
+  have := step_no_error cfg hW _ hi
+  obtain ⟨hc, hf, _, _, _, _⟩ := wake_fields cfg n
+  refine ⟨fun blk h1 h2 => this.1 blk ⟨h1, by rw [hc]; exact h2⟩,
+    fun hne hfl => this.2.1 (by rw [hc]; exact hne) ⟨⟨Or.inl hr.1, Or.inl hr.2.1, Or.inl hr.2.2.1⟩, ?_⟩,
+    (restart_inv' cfg hW n hw.1).1, this.2.2.2⟩
+  unfold RevertAboveFloor at *; rw [hc, hf]; exact hfl
 
-/-- After a failed initialisation the next Store, RevertHead or restart re-arms the initialiser
-(3373c0b) and — the database being sound — it succeeds: the full invariant is back. -/
-theorem failed_init_rearmed_by_write (cfg : Cfg) (hW : 1 ≤ cfg.W) (hr : Repaired cfg) (ops : List Op)
-    (hok : StoresOK cfg Node.init ops) (blk : Block) :
-    let n := run cfg Node.init ops
-    n.initErr ≠ none →
-    (store cfg n blk).1.initErr = none ∧ (revert cfg n).1.initErr = none ∧ (restart cfg n).1.initErr = none := by
-  intro n hbad
-  have hw := weak_after_history cfg hW ops (histOK_of_repaired cfg hr ops _ hok)
-  cases hi : n.initErr with
-  | none => exact absurd hi hbad
-  | some e =>
-    have h1 : (store cfg n blk).1 = reinit cfg n := by simp [store, hi]
-    have h2 : (revert cfg n).1 = reinit cfg n := by
-      unfold revert; simp only [hi]; split <;> (try rfl); split <;> rfl
-    rw [h1, h2]
-    exact ⟨(reinit_inv' cfg hW n hw.1).live, (reinit_inv' cfg hW n hw.1).live, (restart_inv' cfg hW n hw.1).2.live⟩
+/-- After a failed initialisation (a transient read error, a crash) the next access initialises the
+filter (c8ac4a7: the failure is not remembered) and — the database being sound — succeeds. -/
+theorem failed_init_retried_on_next_access (cfg : Cfg) (hW : 1 ≤ cfg.W) (hr : Repaired cfg) (ops : List Op)
+    (hok : StoresOK cfg Node.init ops) :
+    (wake cfg (run cfg Node.init ops)).initErr = none :=
+  (wake_inv cfg hW hr.2.2.2 _ (weak_after_history cfg hW ops (histOK_of_repaired cfg hr ops _ hok))).live
 
-/-- While the initialisation error is remembered, a query that needs the index fails with that
-error and changes nothing: never a partial answer. (That it KEEPS failing until the next write is
-the defect recorded below.) -/
+/-- If the filter cannot be initialised (the retry failed too), a query that needs the index fails
+with that error: never a partial answer. -/
 theorem uninitialised_filter_refuses (cfg : Cfg) (n : Node) (w : Nat) (cache : WinMap) (e : Err) (h : n.initErr = some e) :
     loadWindow cfg n cache w = .error e := by
   simp [loadWindow, h]
@@ -155,8 +149,8 @@ def Valid (f : Filter) (n : Node) (fromB : Nat) (tok : Option Token) : Prop :=
 theorem token_progress (cfg : Cfg) (hW : 1 ≤ cfg.W) (n : Node) (f : Filter) (fromB toB chunk limit : Nat)
     (tok : Option Token) (hchunk : 1 ≤ chunk) (hne : n.chain ≠ []) (hnf : NoFalseNeg cfg n)
     (hfl : n.floor ≤ startOf fromB tok) (hv : Valid f n fromB tok) :
-    ∃ evs t, (query cfg n f fromB toB tok chunk limit).2 = .ok evs t ∧ evs.length ≤ chunk ∧
-      NoFalseNeg cfg (query cfg n f fromB toB tok chunk limit).1 ∧
+    ∃ evs t, (apiEvents cfg n f fromB toB tok chunk limit).2 = .ok evs t ∧ evs.length ≤ chunk ∧
+      NoFalseNeg cfg (apiEvents cfg n f fromB toB tok chunk limit).1 ∧
       let hi := min toB (n.chain.length - 1)
       let left := fun (b p : Nat) => wantN f n.chain b (hi + 1 - b) p
       ((t = Token.none ∧ evs = left (startOf fromB tok) (skipOf tok)) ∨
@@ -171,7 +165,7 @@ theorem token_progress (cfg : Cfg) (hW : 1 ≤ cfg.W) (n : Node) (f : Filter) (f
     | cons _ _ => simp
   obtain ⟨hpost, hcg⟩ := events_spec cfg n f fromB toB tok chunk limit (n.chain.length - 1) hW hlen hwf
     (hs.mono (Nat.min_le_right _ _)) hc hfl hv
-  simp only [query]
+  simp only [apiEvents, wake_live cfg n hs.live, query]
   revert hpost
   cases hr : (events cfg n f fromB toB tok chunk limit).1 with
   | err e => simp [WinPost]
@@ -203,8 +197,9 @@ theorem token_progress (cfg : Cfg) (hW : 1 ≤ cfg.W) (n : Node) (f : Filter) (f
 the page of the plain query (so `paging_complete`, `page_sound`, `pruned_start_rejected` apply). -/
 theorem preconfirmed_ignored_below_head (cfg : Cfg) (n : Node) (f : Filter) (fromB toB : Nat) (tok : Option Token)
     (chunk limit base : Nat) (pre : List Block) (h1 : toB ≠ sentinel) (h2 : toB < n.chain.length) :
-    queryPre cfg n f fromB toB tok chunk limit base pre = query cfg n f fromB toB tok chunk limit := by
-  simp only [queryPre, query, eventsPre_below_head cfg n f fromB toB tok chunk limit base pre h1 h2]
+    apiEventsPre cfg n f fromB toB tok chunk limit base pre = apiEvents cfg n f fromB toB tok chunk limit := by
+  simp only [apiEventsPre, apiEvents, queryPre, query,
+    eventsPre_below_head cfg (wake cfg n) f fromB toB tok chunk limit base pre h1 (by rw [(wake_fields cfg n).1]; exact h2)]
 
 /-- **paging_complete with pre-confirmed blocks**, for a pre-confirmed chain `pre` (oldest first,
 consecutive numbers: `preconfirmed.NewChain` refuses anything else) that was built on canonical
@@ -255,10 +250,11 @@ chain in the range with its true tags, in chain order, none twice. What a defect
 forged token can cost is completeness, never correctness of what is returned. -/
 theorem page_sound (cfg : Cfg) (hW : 1 ≤ cfg.W) (n : Node) (f : Filter) (fromB toB chunk limit : Nat)
     (tok : Option Token) (evs : List Emitted) (t : Token)
-    (h : (query cfg n f fromB toB tok chunk limit).2 = .ok evs t) :
+    (h : (apiEvents cfg n f fromB toB tok chunk limit).2 = .ok evs t) :
     evs.Sublist (naive f n.chain (startOf fromB tok) (min toB (n.chain.length - 1))) := by
-  have := events_sound cfg n f fromB toB tok chunk limit hW
-  simp only [query] at h
+  have := events_sound cfg (wake cfg n) f fromB toB tok chunk limit hW
+  rw [(wake_fields cfg n).1] at this
+  simp only [apiEvents, query] at h
   rw [h] at this
   obtain ⟨Y, hY, hYs⟩ := this
   simpa [hY] using hYs
@@ -271,7 +267,7 @@ theorem page_sound_preconfirmed (cfg : Cfg) (hW : 1 ≤ cfg.W) (n : Node) (f : F
     (tok : Option Token) (pre : List Block) (hpre : pre ≠ []) (hbase : base < n.chain.length)
     (hfit : n.chain.length < sentinel)
     (hto : toB = sentinel ∨ n.chain.length - 1 < toB) (evs : List Emitted) (t : Token)
-    (h : (queryPre cfg n f fromB toB tok chunk limit base pre).2 = .ok evs t) :
+    (h : (apiEventsPre cfg n f fromB toB tok chunk limit base pre).2 = .ok evs t) :
     evs.Sublist (naive f (n.chain.take (base + 1) ++ pre) (min (startOf fromB tok) (base + 1)) (base + pre.length)) := by
   have hB0 : (toB != sentinel && decide (toB ≤ n.chain.length - 1)) = false := by
     simp only [Bool.and_eq_false_iff, bne_eq_false_iff_eq, decide_eq_false_iff_not]
@@ -282,35 +278,38 @@ theorem page_sound_preconfirmed (cfg : Cfg) (hW : 1 ≤ cfg.W) (n : Node) (f : F
     rcases hto with h' | h'
     · rw [h']; omega
     · omega
-  have := eventsPre_sound cfg n f fromB toB tok chunk limit base pre hW hpre hbase hB0 hnb
-  simp only [queryPre] at h
+  have := eventsPre_sound cfg (wake cfg n) f fromB toB tok chunk limit base pre hW hpre
+    (by rw [(wake_fields cfg n).1]; exact hbase) (by rw [(wake_fields cfg n).1]; exact hB0) hnb
+  rw [(wake_fields cfg n).1] at this
+  simp only [apiEventsPre, queryPre] at h
   rw [h] at this
   obtain ⟨Y, hY, hYs⟩ := this
   simpa [hY] using hYs
 
 /-! ## The property, end to end -/
 
-/-- **C09**: after every admissible history (faults and crash points included) on a node whose
-running filter is initialised, every query over a range that starts in the retained part, paged to
+/-- **C09**: after every admissible history (faults and crash points included), every query over a range that starts in the retained part, paged to
 the end with any chunk size ≥ 1 and any scan limit, returns exactly the matching events of the
 canonical chain in the range, in chain order, each with its positions. The chain is the one at the
 time of the query (pages of one query are not interleaved with writes). -/
 theorem events_exact (cfg : Cfg) (hW : 1 ≤ cfg.W) (hr : Repaired cfg) (ops : List Op)
     (hok : StoresOK cfg Node.init ops) (hne : (run cfg Node.init ops).chain ≠ [])
-    (hlive : (run cfg Node.init ops).initErr = none)
     (f : Filter) (fromB toB chunk limit : Nat) (hchunk : 1 ≤ chunk) :
     let n := run cfg Node.init ops
     n.floor ≤ fromB →
     ∀ fuel, (naive f n.chain fromB (min toB (n.chain.length - 1))).length + n.chain.length < fuel →
       collect cfg f fromB toB chunk limit fuel n none = some (naive f n.chain fromB (min toB (n.chain.length - 1))) := by
   intro n hfl fuel hfuel
-  exact paging_complete cfg hW n f fromB toB chunk limit hchunk hne
-    ((index_no_false_neg cfg hW hr ops hok).2 hlive hne) hfl fuel hfuel
+  have hnf := (index_no_false_neg cfg hW hr ops hok).2 hne
+  obtain ⟨hc, hf, _, _, _, _⟩ := wake_fields cfg n
+  rw [collect_wake cfg f fromB toB chunk limit fuel n none hnf.2.1.live]
+  have := paging_complete cfg hW (wake cfg n) f fromB toB chunk limit hchunk (by rw [hc]; exact hne) hnf
+    (by rw [hf]; exact hfl) fuel (by rw [hc]; exact hfuel)
+  rw [hc] at this; exact this
 
 /-- … and with pre-confirmed blocks on top of canonical block `base ≤ head`. -/
 theorem events_exact_preconfirmed (cfg : Cfg) (hW : 1 ≤ cfg.W) (hr : Repaired cfg) (ops : List Op)
     (hok : StoresOK cfg Node.init ops) (hne : (run cfg Node.init ops).chain ≠ [])
-    (hlive : (run cfg Node.init ops).initErr = none)
     (f : Filter) (fromB toB chunk limit base : Nat) (hchunk : 1 ≤ chunk)
     (pre : List Block) (hpre : pre ≠ []) (hpwf : ∀ blk ∈ pre, ∀ it ∈ blk.items, it ∈ blk.bloom) :
     let n := run cfg Node.init ops
@@ -321,15 +320,23 @@ theorem events_exact_preconfirmed (cfg : Cfg) (hW : 1 ≤ cfg.W) (hr : Repaired 
       collectPre cfg f fromB toB chunk limit base pre fuel n none =
         some (naive f (n.chain.take (base + 1) ++ pre) (loOf fromB none (base + pre.length)) (min toB (base + pre.length))) := by
   intro n hbase hto hfl hfit fuel hfuel
-  exact paging_complete_preconfirmed cfg hW n f fromB toB chunk limit base hchunk hne
-    ((index_no_false_neg cfg hW hr ops hok).2 hlive hne) hbase hto hfl pre hpre hpwf hfit fuel hfuel
+  have hnf := (index_no_false_neg cfg hW hr ops hok).2 hne
+  obtain ⟨hc, hf, _, _, _, _⟩ := wake_fields cfg n
+  rw [collectPre_wake cfg f fromB toB chunk limit base pre fuel n none hnf.2.1.live]
+  have := paging_complete_preconfirmed cfg hW (wake cfg n) f fromB toB chunk limit base hchunk (by rw [hc]; exact hne) hnf
+    (by rw [hc]; exact hbase) (by rw [hc]; exact hto) (by rw [hf]; exact hfl) pre hpre hpwf (by rw [hc]; exact hfit) fuel
+    (by rw [hc]; exact hfuel)
+  rw [hc] at this; exact this
 
 /-- **Pruned ranges are refused, never answered in part**: a query (or a token) that starts at a
 canonical block below the retention floor fails with `pruned` and changes nothing. -/
 theorem pruned_start_rejected (cfg : Cfg) (n : Node) (f : Filter) (fromB toB chunk limit : Nat) (tok : Option Token)
     (h1 : startOf fromB tok < n.chain.length) (h2 : startOf fromB tok < n.floor) :
-    query cfg n f fromB toB tok chunk limit = (n, .err .pruned) := by
-  simp only [query, events_eq]
+    apiEvents cfg n f fromB toB tok chunk limit = (wake cfg n, .err .pruned) := by
+  obtain ⟨hc, hf, _, _, _, _⟩ := wake_fields cfg n
+  rw [← hc] at h1; rw [← hf] at h2
+  generalize wake cfg n = n at h1 h2
+  simp only [apiEvents, query, events_eq]
   cases hl : n.chain.length with
   | zero => omega
   | succ latest =>
@@ -344,7 +351,11 @@ theorem pruned_start_rejected_preconfirmed (cfg : Cfg) (n : Node) (f : Filter) (
     (tok : Option Token) (pre : List Block) (hpre : pre ≠ []) (hne : n.chain ≠ [])
     (hto : toB = sentinel ∨ n.chain.length - 1 < toB)
     (h1 : startOf fromB tok ≤ base) (h2 : startOf fromB tok < n.floor) :
-    queryPre cfg n f fromB toB tok chunk limit base pre = (n, .err .pruned) := by
+    apiEventsPre cfg n f fromB toB tok chunk limit base pre = (wake cfg n, .err .pruned) := by
+  obtain ⟨hc, hf, _, _, _, _⟩ := wake_fields cfg n
+  rw [← hc] at hne hto; rw [← hf] at h2
+  simp only [apiEventsPre]
+  generalize wake cfg n = n at hne hto h2
   simp only [queryPre, eventsPre_eq]
   have hemp : pre.isEmpty = false := by cases pre <;> simp_all
   cases hl : n.chain.length with
@@ -359,60 +370,29 @@ theorem pruned_start_rejected_preconfirmed (cfg : Cfg) (n : Node) (f : Filter) (
       simp only [Bool.and_eq_true, decide_eq_true_eq]; exact ⟨h1, h2⟩
     simp [hemp, hB0, this]
 
-/-! ## Open finding: a failed lazy initialisation is sticky for queries -/
+/-! ## Open finding: a pruned database opened without `--prune-mode` -/
 
-/-
-Full-strength statement (what one wants): after a TRANSIENT failure of the lazy initialisation the
-next query succeeds (the database is intact). FALSE for the code in /repo: `ensureInit` remembers
-the error (`sync.Once`), only a failed Store / RevertHead (`Reset`, 3373c0b) or a restart re-arms
-the initialiser; event queries do not. `events_exact` therefore carries the hypothesis
-`initErr = none`. The repair is owned by C05 (its finding L16); C09 records the query side.
--/
-def cfgRepaired : Cfg := ⟨3, 2, true, true, true⟩
+def cfgRepaired : Cfg := ⟨3, 2, true, true, true, true⟩
 def blkE : Block := ⟨[], []⟩
 def blkB : Block := ⟨[[⟨11, [7]⟩]], [.addr 11, .key 0 7]⟩
 def fB : Filter := ⟨[11], []⟩
 
-/-- `_partial`: with the hypothesis that no initialisation error is remembered — `events_exact`. -/
-theorem events_exact_after_faults_partial (cfg : Cfg) (hW : 1 ≤ cfg.W) (hr : Repaired cfg) (ops : List Op)
-    (hok : StoresOK cfg Node.init ops) (hne : (run cfg Node.init ops).chain ≠ [])
-    (hlive : (run cfg Node.init ops).initErr = none)
-    (f : Filter) (fromB toB chunk limit : Nat) (hchunk : 1 ≤ chunk) (hfl : (run cfg Node.init ops).floor ≤ fromB)
-    (fuel : Nat)
-    (hfuel : (naive f (run cfg Node.init ops).chain fromB (min toB ((run cfg Node.init ops).chain.length - 1))).length +
-      (run cfg Node.init ops).chain.length < fuel) :
-    collect cfg f fromB toB chunk limit fuel (run cfg Node.init ops) none =
-      some (naive f (run cfg Node.init ops).chain fromB (min toB ((run cfg Node.init ops).chain.length - 1))) :=
-  events_exact cfg hW hr ops hok hne hlive f fromB toB chunk limit hchunk hfl fuel hfuel
-
-/-- Negation witness: two blocks, a restart whose initialisation hits a transient error; the
-database is intact and holds a matching event, yet the query fails, and fails again; a Store attempt
-(which itself fails once) re-arms the initialiser and the same query is then exact. -/
-theorem query_fails_after_transient_init_error :
-    let ops : List Op := [.store blkE, .store blkB, .restartFault]
-    let n := run cfgRepaired Node.init ops
-    storesOKb cfgRepaired Node.init ops = true ∧
-    naive fB n.chain 0 1 = [⟨1, 0, 0, ⟨11, [7]⟩⟩] ∧
-    (query cfgRepaired n fB 0 1 none 5 0).2 = .err .io ∧
-    (query cfgRepaired (query cfgRepaired n fB 0 1 none 5 0).1 fB 0 1 none 5 0).2 = .err .io ∧
-    (store cfgRepaired n blkE).2 = some .io ∧
-    (query cfgRepaired (store cfgRepaired n blkE).1 fB 0 1 none 5 0).2 = .ok [⟨1, 0, 0, ⟨11, [7]⟩⟩] Token.none := by
-  decide
-
-/-- Negation witness (second open finding): a pruning node (`W = 3`, 13 blocks, floor 12 in the
+/-- Negation witness: a pruning node (`W = 3`, 13 blocks, floor 12 in the
 head's window, so no persisted window is left and the headers below 2 are gone) is stopped without a
 snapshot and started again without `--prune-mode`: the initialiser that does not know the floor walks
 back to block 0, misses its header and fails; the retained matching event of block 12 cannot be
-queried. Started with the floor-aware initialiser the same database answers exactly. -/
+queried, every retry fails the same way, and no block can be stored. Started with the floor-aware
+initialiser the same database answers exactly. -/
 theorem query_fails_on_pruned_database_without_prune_mode :
     let ops : List Op := List.replicate 12 (.store blkE) ++ [.store blkB, .prune 12]
     let n := run cfgRepaired Node.init ops
     storesOKb cfgRepaired Node.init ops = true ∧
     naive fB n.chain 12 12 = [⟨12, 0, 0, ⟨11, [7]⟩⟩] ∧
     (restartCore cfgRepaired n).2 = some .notfound ∧
-    (query cfgRepaired (restartCore cfgRepaired n).1 fB 12 12 none 5 0).2 = .err .notfound ∧
+    (apiEvents cfgRepaired (restartCore cfgRepaired n).1 fB 12 12 none 5 0).2 = .err .notfound ∧
+    (apiStore cfgRepaired (restartCore cfgRepaired n).1 blkE).2 = some .notfound ∧
     (restart cfgRepaired n).2 = none ∧
-    (query cfgRepaired (restart cfgRepaired n).1 fB 12 12 none 5 0).2 = .ok [⟨12, 0, 0, ⟨11, [7]⟩⟩] Token.none := by
+    (apiEvents cfgRepaired (restart cfgRepaired n).1 fB 12 12 none 5 0).2 = .ok [⟨12, 0, 0, ⟨11, [7]⟩⟩] Token.none := by
   decide
 
 /-! ## Non-vacuity -/
@@ -422,7 +402,7 @@ example :
     let ops : List Op := [.store blkE, .store blkE, .store blkE, .store blkE, .query fB 0 3 none 5 0,
       .revert, .revert, .store blkB, .store blkE]
     storesOKb cfgRepaired Node.init ops = true ∧ (run cfgRepaired Node.init ops).chain ≠ [] ∧
-    (query cfgRepaired (run cfgRepaired Node.init ops) fB 0 3 none 5 0).2 = .ok [⟨2, 0, 0, ⟨11, [7]⟩⟩] Token.none := by
+    (apiEvents cfgRepaired (run cfgRepaired Node.init ops) fB 0 3 none 5 0).2 = .ok [⟨2, 0, 0, ⟨11, [7]⟩⟩] Token.none := by
   decide
 
 -- failed commits and a crash inside the initialiser in the history
@@ -431,15 +411,24 @@ example :
       .snap, .store blkB, .store blkE, .restartCrash 1, .revert, .storeFail blkE, .store blkB]
     let n := run cfgRepaired Node.init ops
     storesOKb cfgRepaired Node.init ops = true ∧ n.initErr = none ∧ n.chain.length = 6 ∧
-    (query cfgRepaired n fB 0 9 none 5 0).2 = .ok [⟨2, 0, 0, ⟨11, [7]⟩⟩, ⟨4, 0, 0, ⟨11, [7]⟩⟩, ⟨5, 0, 0, ⟨11, [7]⟩⟩] Token.none := by
+    (apiEvents cfgRepaired n fB 0 9 none 5 0).2 = .ok [⟨2, 0, 0, ⟨11, [7]⟩⟩, ⟨4, 0, 0, ⟨11, [7]⟩⟩, ⟨5, 0, 0, ⟨11, [7]⟩⟩] Token.none := by
+  decide
+
+-- a restart whose initialisation hits a transient error: the next query initialises and is exact
+example :
+    let ops : List Op := [.store blkE, .store blkB, .restartFault]
+    let n := run cfgRepaired Node.init ops
+    storesOKb cfgRepaired Node.init ops = true ∧ n.initErr = some .io ∧
+    (apiEvents cfgRepaired n fB 0 1 none 5 0).2 = .ok [⟨1, 0, 0, ⟨11, [7]⟩⟩] Token.none ∧
+    (apiStore cfgRepaired n blkE).2 = none := by
   decide
 
 -- paging with chunk size 1 and scan limit 1 over a chain with two matching events in one block
 example :
     let ops : List Op := [.store ⟨[[⟨11, []⟩, ⟨12, []⟩, ⟨11, []⟩]], [.addr 11, .addr 12]⟩, .store blkE, .store blkB]
     let n := run cfgRepaired Node.init ops
-    (query cfgRepaired n fB 0 2 none 1 1).2 = .ok [⟨0, 0, 0, ⟨11, []⟩⟩] ⟨0, 2⟩ ∧
-    (query cfgRepaired n fB 0 2 (some ⟨0, 2⟩) 1 1).2 = .ok [⟨0, 0, 2, ⟨11, []⟩⟩] ⟨2, 0⟩ ∧
+    (apiEvents cfgRepaired n fB 0 2 none 1 1).2 = .ok [⟨0, 0, 0, ⟨11, []⟩⟩] ⟨0, 2⟩ ∧
+    (apiEvents cfgRepaired n fB 0 2 (some ⟨0, 2⟩) 1 1).2 = .ok [⟨0, 0, 2, ⟨11, []⟩⟩] ⟨2, 0⟩ ∧
     collect cfgRepaired fB 0 2 1 1 10 n none = some (naive fB n.chain 0 2) := by
   decide
 
@@ -450,16 +439,16 @@ example :
       .snap, .prune 4, .revert, .store blkA, .restart]
     let n := run cfgRepaired Node.init ops
     storesOKb cfgRepaired Node.init ops = true ∧ n.floor = 4 ∧ n.persisted.map (·.1) = [3] ∧
-    (query cfgRepaired n fB 4 9 none 5 0).2 = .ok [⟨4, 0, 0, ⟨11, [7]⟩⟩, ⟨5, 0, 0, ⟨11, [7]⟩⟩, ⟨6, 0, 0, ⟨11, [7]⟩⟩] Token.none ∧
-    (query cfgRepaired n fB 3 9 none 5 0).2 = .err .pruned ∧
-    (query cfgRepaired n fB 9 9 (some ⟨0, 1⟩) 5 0).2 = .err .pruned := by
+    (apiEvents cfgRepaired n fB 4 9 none 5 0).2 = .ok [⟨4, 0, 0, ⟨11, [7]⟩⟩, ⟨5, 0, 0, ⟨11, [7]⟩⟩, ⟨6, 0, 0, ⟨11, [7]⟩⟩] Token.none ∧
+    (apiEvents cfgRepaired n fB 3 9 none 5 0).2 = .err .pruned ∧
+    (apiEvents cfgRepaired n fB 9 9 (some ⟨0, 1⟩) 5 0).2 = .err .pruned := by
   decide
 
 -- pre-confirmed blocks on the head, and on the block below the head (base = head - 1)
 example :
     let n := run cfgRepaired Node.init [.store blkE, .store blkB]
     let pre : List Block := [blkB, blkE, blkB]
-    (queryPre cfgRepaired n fB 0 sentinel none 1 0 1 pre).2 = .ok [⟨1, 0, 0, ⟨11, [7]⟩⟩] ⟨2, 0⟩ ∧
+    (apiEventsPre cfgRepaired n fB 0 sentinel none 1 0 1 pre).2 = .ok [⟨1, 0, 0, ⟨11, [7]⟩⟩] ⟨2, 0⟩ ∧
     collectPre cfgRepaired fB 0 sentinel 1 0 1 pre 10 n none = some (naive fB (n.chain ++ pre) 0 4) ∧
     collectPre cfgRepaired fB sentinel sentinel 1 0 1 pre 10 n none = some (naive fB (n.chain ++ pre) 4 4) ∧
     collectPre cfgRepaired fB 0 sentinel 1 0 0 pre 10 n none = some (naive fB (n.chain.take 1 ++ pre) 0 3) ∧
